@@ -7,7 +7,7 @@ L3  power gain * d_out^2 / d_in^2 == 1 as a rational-function identity
 The scale factors of ft2/ift2 are taken from /repo's fouriertransform.py as it
 is on this run (callee inlining), Parseval for numpy's DFT is trusted.
 """
-from ..common import get_index, nf
+from ..common import get_index, nf, purity_obligations
 from ..field import linear_gain, NotLinear, NotConstantModulus, outer_multiplier
 from ..interp import Interp, has_unknown, unknown_atoms
 from ..plf import Rat, Sym, Fn, find_atoms
@@ -105,4 +105,7 @@ def run(rep, tier, root=None):
             rep.sample({"propagator": ptag, "gain": nf(gain, 200), "gain*d_out^2/d_in^2": nf(total, 80)})
         if not seen_nontrivial:
             raise AnalysisError("%s: no propagating path found" % f.fq)
+    purity_obligations(rep, ix, [ix.func(MOD, n) for n in NPARAMS] + [ix.func("aotools.fouriertransform", n) for n in ("ft2", "ift2")],
+                       "L4.pure", "the caller's input field is changed, so the power of a second propagation (or the comparison with "
+                       "the input power) refers to a different field")
     rep.floor("propagator paths", npaths, 5)
